@@ -28,7 +28,7 @@ REQUIRED = ["trees_built", "trees_with_unpruned_leaf", "trees_fully_pruned", "pr
             "parse_logs_with_missing_or_short_assertion_json",
             "parse_winner_only_entry_with_an_empty_list_or_null_for_already_eliminated",
             "parse_candidate_manifest_omits_a_candidate_of_the_contest", "parse_contest_labelled_other_than_IRV",
-            "printed_trees_compared_with_the_tree_of_the_full_set"]
+            "printed_trees_compared_with_the_tree_of_the_full_set", "assertion_records_given_as_lists"]
 ASSUMPTIONS = ["tag comparison is by assertion content (the module identifies an assertion by list.index, which maps exact "
                "duplicates to one index)"]
 N_CASES = {"quick": 128000, "thorough": 1024000}
@@ -176,6 +176,12 @@ def run_case(case, rec):
         # records that went through a set() (de-duplication) hold their eliminated sets as frozensets: same sets
         el = [(c, frozenset(E), p) for c, E, p in el]
         rec.count("eliminated_sets_given_as_frozensets")
+    if (len(cands) + len(wo) + 2 * len(el)) % 6 == 0:
+        # records that went through a serialiser come back as LISTS [candidate, set, proved] / [loser, winner, proved]: the
+        # same assertions
+        el = [list(t) for t in el]
+        wo = [list(t) for t in wo]
+        rec.count("assertion_records_given_as_lists")
     if any(c in E for c, E, _p in el):
         rec.count("sets_with_a_vacuous_assertion_whose_candidate_is_in_its_own_eliminated_set")
     S = set(cands) - {root}
